@@ -510,5 +510,5 @@ MANIFEST = {
              "the hash-chain shape and container order are decided on the AST, the chunking is decided as a partition on a boundary-complete set of lengths, registries are "
              "checked exhaustively against the enum and all 140 device databases.",
     "note": "Trusted: struct, the evaluators, PyYAML. Not decided: hash/CMAC/signature values, ROM acceptance at value level.",
-    "technique": "static analysis: call-tree state-accumulation walk, writer/reader struct symmetry, abstract evaluation of length formulas and chunking, registry/data lint, finite-model evaluation of the block chain, partition and export (symbolic hash/cipher leaves), symbolic-path part lists and event order, export/parse round trip of every SB3.1 command class and of the container header interpreted on model objects (E19)",
+    "technique": "static analysis: call-tree state-accumulation walk, writer/reader struct symmetry, abstract evaluation of length formulas and chunking, registry/data lint, finite-model evaluation of the block chain, partition and export (symbolic hash/cipher leaves), symbolic-path part lists and event order, export/parse round trip of every SB3.1 command class and of the container header interpreted on model objects (E19), timestamp agreement (constructor and header constructor interpreted), key-hash construction borrowed from C03, KDF record evaluated on all parameter combinations",
 }
